@@ -27,6 +27,7 @@ def main():
     ap.add_argument('prop')
     ap.add_argument('--wt', default=None)
     ap.add_argument('--tests', default=None)
+    ap.add_argument('-k', default=None)
     args = ap.parse_args()
     prop = args.prop.upper()
     wt = args.wt or f'/tmp/wt-{prop}'
@@ -43,10 +44,16 @@ def main():
             print(f'{prop}-{k}: patch does not apply: {out[-300:]}')
             continue
         rc1, out1 = sh(['/venv/bin/python', os.path.join(d, 'demo.py')], wt, env)
+        meta.setdefault('tests_run', '')
         tests = args.tests or ' '.join(sorted(set(re.findall(r'tests/[\w/]+\.py', json.dumps(meta)))))
         rct, outt = (0, 'no tests named')
         if tests:
-            rct, outt = sh(f'/venv/bin/python -m pytest -q -p no:cacheprovider -x {tests}', wt, env)
+            desel = ' '.join('--deselect ' + x for x in [
+                'tests/test_entangle/test_entangle_ppt.py::test_cvx_relative_entropy_entanglement_random',
+                'tests/test_entangle/test_entangle_eof.py::test_Monogamy_of_entanglement',
+                'tests/test_entangle/test_entangle_cha.py::test_convex_hull_approximation_iterative'])  # flaky / always_fail in BASELINE.json
+            kexpr = f' -k "{args.k}"' if args.k else ''
+            rct, outt = sh(f'/venv/bin/python -m pytest -q -p no:cacheprovider -x {desel}{kexpr} {tests}', wt, env)
         sh('git checkout -- python', wt)
         ok = (rc0 == 0 and rc1 != 0 and rct == 0)
         tail = [l for l in outt.strip().splitlines() if 'passed' in l or 'failed' in l or 'error' in l][-1:]
